@@ -2233,7 +2233,10 @@ def _config_str(
   with _parse_scope(import_manager=import_manager):
     macros = {}
     for (scope, selector), config in configuration_object.items():
+      # The operative config records an empty entry for a macro whose use failed
+      # because it was never bound: there is nothing to emit for it.
       if (_REGISTRY[selector].wrapped == macro and  # pylint: disable=comparison-with-callable
+          'value' in config and
           _is_literally_representable(config['value'])):
         # As for parameters: never emit something that doesn't parse back.
         macros[scope, selector] = config
